@@ -1,7 +1,9 @@
 package mon
 
 import (
+	"encoding/json"
 	"fmt"
+	"strings"
 
 	"github.com/woodsbury/decimal128"
 
@@ -411,7 +413,59 @@ func init() {
 				return 20000
 			}, Run: c20Triples},
 			{Name: "random", N: func(c *Ctx) int { return tierN(c, 20000, 6000000) }, Run: c20Random},
+			{Name: "number-vs-string", N: c20NumStrN, Run: c20NumStr, Exhaustive: true},
 			{Name: "matrix", Setup: c20Setup, N: func(c *Ctx) int { return tierN(c, 1500, 100000) }, Run: c20Matrix},
 		},
 	})
+}
+
+// ---- numbers against the strings that spell them
+//
+// == never equates values of different JSON types: a number is never equal to a string, whatever the
+// number is - in range, at the edge of the decimal range, beyond it, or a json.Number whose text is
+// not a number at all - and whichever side it stands on.  The expected answers are constants, so no
+// model of the number is needed (direct oracle).
+var c20Spellings = []string{"0", "-0", "1", "1.0", "1e0", "10", "0.1", "1e400", "1e-400", "1e6144", "9.999999999999999999999999999999999e6144", "1e6145", "1e7000", "-1e7000", "1E7000", "1.0e7000", "12345678901234567890123456789012345678901234567890e6100",
+	"1e-6176", "1e-6177", "1e-7000", "0e7000", "1e99999", "1e999999999999", "9223372036854775808", "18446744073709551616", "123456789012345678901234567890123456", "0.30000000000000004", "true", "null", "", " 1", "1 ", "0x10", "NaN", "Infinity", "-Infinity", "1_000", "1e", "+1", ".5", "1."}
+
+func c20NumStrN(c *Ctx) int { return len(c20Spellings) }
+
+func c20NumStr(c *Ctx, idx int) {
+	t := c20Spellings[idx]
+	isJSON := ref.IsJSONNumber(t)
+	doc := map[string]any{"n": json.Number(t), "s": t, "ns": []any{json.Number(t)}, "ss": []any{t}, "o": map[string]any{"a": json.Number(t)}, "p": map[string]any{"a": t}, "mix": []any{json.Number(t), t, json.Number("7"), "7"}}
+	type q struct{ expr, want string }
+	qs := []q{
+		{"n == s", "false"}, {"s == n", "false"}, {"n != s", "true"}, {"s != n", "true"},
+		{"contains(ns, s)", "false"}, {"contains(ss, n)", "false"}, {"ns == ss", "false"}, {"ss == ns", "false"}, {"o == p", "false"}, {"p == o", "false"}, {"[o] != [p]", "true"},
+		{"length(mix[?@ == $.s])", "1"}, {"mix[?@ == $.s] | [0] == $.s", "true"}, {"type(mix[?@ == $.s] | [0])", `"string"`},
+		{"s == s && ss == ss && p == p", "true"},
+		{"[n, s] == [s, n]", "false"}, {"{a: n} == {a: s}", "false"},
+		{"let $n = n, $s = s in [$n == $s, $s == $n]", "[false,false]"},
+		{"map(&(@ == $.s), ns)", "[false]"}, {"ss[?@ == $.n]", "[]"}, {"ns[?@ == $.s]", "[]"},
+	}
+	if isJSON {
+		lit := "`" + t + "`"
+		qs = append(qs, q{lit + " == '" + t + "'", "false"}, q{"'" + t + "' == " + lit, "false"}, q{lit + " != '" + t + "'", "true"}, q{"contains(`[" + t + "]`, '" + t + "')", "false"}, q{"contains(`[\"" + t + "\"]`, " + lit + ")", "false"},
+			q{"`[1,{\"a\":" + t + "}]` == `[1,{\"a\":\"" + t + "\"}]`", "false"}, q{"`[1,{\"a\":\"" + t + "\"}]` == `[1,{\"a\":" + t + "}]`", "false"}, q{lit + " == s", "false"}, q{"s == " + lit, "false"})
+	}
+	for _, x := range qs {
+		l := c.LibSearch(x.expr, doc)
+		if l.Panic != nil || l.Err != nil {
+			c.Count("number_vs_string_not_evaluated", 1)
+			continue
+		}
+		got := strings.ReplaceAll(ShowOut(l), " ", "")
+		if got != x.want {
+			c.Report(Violation{Rule: "C20/number-equals-string", Expr: x.expr, Data: fmt.Sprintf(`{"n": json.Number(%q), "s": %q, ...}`, t, t), Got: ShowOut(l), Want: x.want, Features: map[string]string{"stream": "number-vs-string", "spelling": t}})
+		}
+		c.Nontrivial(x.expr, t)
+	}
+	// to_string(n), when it is a string, is a string
+	l := c.LibSearch("[type(to_string(n)), n == to_string(n), to_string(n) == n]", doc)
+	if l.Err == nil && l.Panic == nil {
+		if got := strings.ReplaceAll(ShowOut(l), " ", ""); got != `["string",false,false]` {
+			c.Report(Violation{Rule: "C20/number-equals-string", Expr: "[type(to_string(n)), n == to_string(n), to_string(n) == n]", Data: fmt.Sprintf(`{"n": json.Number(%q)}`, t), Got: ShowOut(l), Want: `["string", false, false]`, Features: map[string]string{"stream": "number-vs-string", "spelling": t}})
+		}
+	}
 }
